@@ -348,6 +348,27 @@ trait VecApi<T: Elem>: Sized {
     fn pop_bulk(&mut self, _k: usize) -> R<T> { R::Unsup }
     fn copy_from(&mut self, _xs: Vec<T>) -> R<T> { R::Unsup }
     fn push_n(&mut self, _k: usize, _x: T) -> R<T> { R::Unsup }
+    fn resize_with(&mut self, _n: usize, _mk: &mut dyn FnMut() -> T) -> R<T> { R::Unsup }
+}
+/// FastVec over the drop-counting element type, through the generic (oracle-only) history runner: the operations the
+/// Coq-traced FastVec<El> cell does not have (resize_with), with every element construction and destruction counted.
+struct FvEl(FastVec<El>);
+impl VecApi<El> for FvEl {
+    fn create(cap: usize) -> Self { FvEl(if cap == 0 { FastVec::new() } else { FastVec::with_capacity(cap).unwrap() }) }
+    fn len(&self) -> usize { self.0.len() }
+    fn ids(&self) -> Vec<u64> { self.0.as_slice().iter().map(|x| x.id()).collect() }
+    fn get(&self, i: usize) -> Option<u64> { self.0.as_slice().get(i).map(|x| x.id()) }
+    fn push(&mut self, x: El) -> R<El> { unit(self.0.push(x)) }
+    fn pop(&mut self) -> R<El> { R::Val(self.0.pop()) }
+    fn insert(&mut self, i: usize, x: El) -> R<El> { unit(self.0.insert(i, x)) }
+    fn remove(&mut self, i: usize) -> R<El> { match self.0.remove(i) { Ok(x) => R::Val(Some(x)), Err(_) => R::Refused } }
+    fn resize(&mut self, n: usize, x: El) -> R<El> { unit(self.0.resize(n, x)) }
+    fn clear(&mut self) -> R<El> { self.0.clear(); R::Unit }
+    fn shrink(&mut self) -> R<El> { unit(self.0.shrink_to_fit()) }
+    fn extend(&mut self, xs: Vec<El>) -> R<El> { unit(self.0.extend(xs)) }
+    fn reserve(&mut self, n: usize) -> R<El> { unit(self.0.reserve(n)) }
+    fn clone_self(&self) -> Option<Self> { Some(FvEl(self.0.clone())) }
+    fn resize_with(&mut self, n: usize, mk: &mut dyn FnMut() -> El) -> R<El> { unit(self.0.resize_with(n, || mk())) }
 }
 fn unit<T, E>(r: Result<(), E>) -> R<T> { match r { Ok(()) => R::Unit, Err(_) => R::Refused } }
 
@@ -510,6 +531,9 @@ fn generic_history<T: Elem, V: VecApi<T>>(cx: &mut Ctx, cell: &str, tag: &str, c
                                             _ => if a <= shadow.len() { problem = Some(format!("pop_bulk({}) refused with len {}", a, shadow.len())); } },
                 15 => { let k = a.min(200); let xs: Vec<T> = (0..k).map(|_| T::make(fresh())).collect(); let idv: Vec<u64> = xs.iter().map(|x| x.id()).collect();
                         expect_unit!(v.copy_from(xs), "copy_from", shadow = idv) }
+                17 => { let mut made: Vec<u64> = vec![];
+                        let r = v.resize_with(a, &mut || { let x = T::make(fresh()); made.push(x.id()); x });
+                        expect_unit!(r, "resize_with", { if a <= shadow.len() { shadow.truncate(a); } else { shadow.extend(made.iter().copied()); } }) }
                 _ => { let k = a.min(200); let id = fresh(); let x = T::make(id); let idv = x.id();
                        expect_unit!(v.push_n(k, x), "push_n", shadow.extend(std::iter::repeat(idv).take(k))) }
             }
@@ -532,6 +556,7 @@ fn vec_cell(cx: &mut Ctx, tag: &str, cap0: u64, ops: &[Vec<u64>]) {
     match tag {
         "fastvec_u64" => generic_history::<u64, FastVec<u64>>(cx, "FastVec<u64>", tag, cap0, ops),
         "fastvec_u8" => generic_history::<u8, FastVec<u8>>(cx, "FastVec<u8>", tag, cap0, ops),
+        "fastvec_el" => generic_history::<El, FvEl>(cx, "FastVec<El>/resize_with", tag, cap0, ops),
         "valvec32_el" => generic_history::<El, ValVec32<El>>(cx, "ValVec32<El>", tag, cap0, ops),
         "valvec32_u64" => generic_history::<u64, VV64>(cx, "ValVec32<u64>", tag, cap0, ops),
         "cachevec_el" => generic_history::<El, CacheAlignedVec<El>>(cx, "CacheAlignedVec<El>", tag, cap0, ops),
@@ -766,6 +791,7 @@ fn gen_vec_ops(r: &mut Rng, allowed: &[u64], big: bool) -> Vec<Vec<u64>> {
             13 => { let a = idx(r, len); let b = idx(r, len); vec![13, a.min(b), a.max(b)] }
             14 => { let am = amount(r); let k = *r.pick(&[0, 1, len, len / 2, len + 1, am]); if k <= len { len -= k; } vec![14, k] }
             15 => { let k = amount(r); len = k; vec![15, k] }
+            17 => { let am = amount(r); let m = *r.pick(&[0, len, len.saturating_sub(1), len / 2, len + 1, len + am]); len = m; vec![17, m] }
             _ => { let k = *r.pick(&[0u64, 1, 15, 16, 17, 33, 64]); len += k; vec![16, k] }
         };
         ops.push(o);
@@ -872,6 +898,8 @@ pub fn run(args: &Args) {
             vec_cell(&mut cx, "fastvec_u64", cap0, &ops);
             let ops = gen_vec_ops(&mut rng, &[0, 1, 2, 3, 4, 4, 5, 6, 7, 7, 8, 9, 10, 13, 2, 3], true);
             vec_cell(&mut cx, "fastvec_u8", cap0, &ops);
+            let ops = gen_vec_ops(&mut rng, &[0, 0, 1, 2, 3, 4, 5, 6, 7, 8, 9, 10, 17, 17, 17], false);
+            vec_cell(&mut cx, "fastvec_el", cap0, &ops);
             let ops = gen_vec_ops(&mut rng, &[0, 0, 1, 5, 7, 8, 9, 10, 11], false);
             vec_cell(&mut cx, "valvec32_el", cap0, &ops);
             let ops = gen_vec_ops(&mut rng, &[0, 0, 1, 5, 7, 8, 9, 10, 11, 16], true);
